@@ -4,6 +4,12 @@ import ClipVerif.Model.Simplify
 import ClipVerif.Model.PIP
 import ClipVerif.Model.Lists
 import ClipVerif.Model.Wind
+import ClipVerif.Model.RectPoly
+import ClipVerif.Model.RectLine
+import ClipVerif.Model.PIPOp
+import ClipVerif.Model.Scan
+import ClipVerif.Model.Offset
+import ClipVerif.Model.Conv
 import ClipVerif.Model.Vertex
 import ClipVerif.Model.Out
 import ClipVerif.Model.Tree
@@ -146,6 +152,55 @@ def model (name : String) (ts : Toks) : String :=
       " ".intercalate (r.toList.map fun o =>
         if !o.placed then "-2" else match o.parent with | some p => toString p | none => "-1")
     | none => "parse-error"
+  | "lowest", ts =>
+    match takePaths ts with
+    | some (ps, []) =>
+      let area (p : List Point64) : Int :=
+        let a := Spec.area2 (Gen.pathToI p)
+        if a < 0 then -1 else if a = 0 then 0 else 1
+      let r := Model.lowestPathInfo area (ps.map toP64)
+      s!"{r.1} {b r.2}"
+    | _ => "parse-error"
+  | "scanins", y :: rest =>
+    " ".intercalate ((Model.insertScanline (rest.map Int64.ofInt) (Int64.ofInt y)).map fun v => toString v.toInt)
+  | "scanpop", rest =>
+    match Model.popScanline (rest.map Int64.ofInt) with
+    | none => "none"
+    | some (y, l) => " ".intercalate (toString y.toInt :: "|" :: l.map fun v => toString v.toInt)
+  | "pipop", px :: py :: rest =>
+    match takePath rest with
+    | some (p, []) => toString (Model.pointInOpPolygon (p64 ⟨px, py⟩) (toP64 p))
+    | _ => "parse-error"
+  | "rectline", l :: t :: r :: bo :: rest =>
+    match takePaths rest with
+    | some (ps, []) =>
+      showPaths (Model.rectClipLines ⟨Int64.ofInt l, Int64.ofInt t, Int64.ofInt r, Int64.ofInt bo⟩ (ps.map toP64))
+    | _ => "parse-error"
+  | "rectpoly", l :: t :: r :: bo :: rest =>
+    match takePath rest with
+    | some (p, []) =>
+      match Model.executePoly ⟨Int64.ofInt l, Int64.ofInt t, Int64.ofInt r, Int64.ofInt bo⟩ (toP64 p).toArray with
+      | some rings => showPaths rings
+      | none => "fault"
+    | _ => "parse-error"
+  | "offplan", dbits :: jt :: et :: rev :: pres :: rest =>
+    match takePaths rest with
+    | some (ps, []) =>
+      let area (p : List Point64) : Int :=
+        let a := Spec.area2 (Gen.pathToI p)
+        if a < 0 then -1 else if a = 0 then 0 else 1
+      let evs := Model.offsetPlan Model.stripDuplicates area (ps.map toP64) (Float.ofBits dbits.toNat.toUInt64)
+        jt.toNat et.toNat (rev != 0) (pres != 0)
+      " ; ".intercalate (evs.map fun
+        | .passThrough => "P"
+        | .group gd e j low r => s!"G {gd.toBits.toNat} {e} {j} {low} {b r}"
+        | .path cnt e pts => s!"S {cnt} {e} {showPath pts}"
+        | .union fr r pc => s!"U {fr} {b r} {b pc}")
+    | _ => "parse-error"
+  | "windopen", ct :: fr :: hot2 :: rest =>
+    match takeEdges rest with
+    | some [e2] => b (Model.openCrossToggles ct.toNat fr.toNat e2 (hot2 != 0))
+    | _ => "parse-error"
   | _, _ => "parse-error model"
 
 def i64 (i : Int) : Int64 := Int64.ofInt i
